@@ -166,8 +166,38 @@ def single_initialisation_per_class(ctx):
             ctx.check(f"{c}.il_init_var x3 [{'inlined' if inlined else 'own variable'}]", ok, "'' when inlined; otherwise the declaration at most once, then ''", str(got)[:140], fn_where(idx, fi), nontrivial=(fi.cls == c))
 
 
+def single_effect_declaration_per_hybrid_class(ctx):
+    """every hybrid class (calls, x++, statement-expressions, routines) declares its effect at most once, through whichever of the three
+    initialisers the layouts use - the class's own method, wherever it is defined (a class that overrides one of them must keep the
+    once-guard: each enclosing statement of the statement layout asks again)"""
+    idx = get_index(ctx.env)
+
+    def hook(interp, callee, args, kwargs, text):
+        from sa.absint import BoundMethod
+        if isinstance(callee, BoundMethod) and callee.finfo.name in ("il_exec", "il_write", "il_read") and callee.obj is not None and callee.obj.label == "self":
+            return Opaque(f"{callee.finfo.name}()")
+        return NotImplemented
+    classes = sorted(c for c in idx.subclasses("Hybrid") if c in idx.classes)
+    ctx.need(len(classes) >= 4, f"hybrid classes: only {classes}")
+    for c in classes:
+        for m in ("il_init_var", "il_init_effect_var"):
+            fi = idx.resolve_method(c, m)
+            if fi is None:
+                continue
+            mk = lambda c=c: AObj(c, {"effect_init_count": 0, "pure_init_count": 0, "init_counter": 0, "name": "h_3", "isa_name": None, "ops": [], "reads": 0, "inlined": False, "lets": [],
+                                      "value_type": mk_vt("t", True, 32)}, label="self")
+            try:
+                outs, _ = seq_calls(idx, fi, mk, 3, hook)
+                got = [[normalise(to_text(x)) for x in o.value] if o.kind == "return" else outcome_text(o) for o in outs]
+            except Exception as e:
+                got = [f"not evaluable: {type(e).__name__}: {e}"]
+            ok = len(got) == 1 and isinstance(got[0], list) and len(got[0]) == 3 and got[0][1] == "" and got[0][2] == ""
+            ctx.check(f"{c}.{m} x3", ok, "the declaration at most once, then ''", str(got)[:160], fn_where(idx, fi), nontrivial=(fi.cls == c))
+
+
 @rule("R12.2", "C12", "single initialisation: a PureExec / Hybrid prints its initialiser at most once", min_instances=3)
 def r12_2(ctx):
+    single_effect_declaration_per_hybrid_class(ctx)
     idx = get_index(ctx.env)
     def hook(interp, callee, args, kwargs, text):
         from sa.absint import BoundMethod
@@ -590,3 +620,59 @@ def r12_13(ctx):
     from .c09 import r09_3
 
     r09_3(ctx)
+
+
+def every_operand_is_consumed(ctx):
+    """printing an operation consumes each of its operands: the text of `il_exec` reads every operand that owns an IL variable at least once,
+    whatever the other operands are - a literal that decides the result (x && 0), the same node in two positions (c ? x : x).  An operand
+    whose read is skipped or thrown away stays initialised and is never consumed (leak)."""
+    from .c02 import members_by_value, run_il_exec
+    from .common import outcome_text
+
+    idx = get_index(ctx.env)
+
+    def lit(label, v, signed=True, w=32):
+        return AObj("Number", {"value": v, "value_type": mk_vt("t" + label, signed, w), "name": label, "isa_name": None, "inlined": True, "reads": 0}, label=label)
+
+    def var(label, w=32, groups=("PURE",)):
+        return mk_pure(label, mk_vt("t" + label, True, w, groups), cls="LocalVar")
+
+    specs = []
+    for cls, enum, field in (("ArithmeticOp", "ArithmeticType", "arith_type"), ("BitOp", "BitOperationType", "op_type"), ("CompareOp", "CompareOpType", "op_type"), ("BooleanOp", "BooleanOpType", "op_type")):
+        mem = members_by_value(idx, enum)
+        for spelled, m in sorted(mem.items(), key=lambda kv: str(kv[0])):
+            unary = (cls == "BitOp" and spelled in ("~", "-")) or (cls == "BooleanOp" and spelled == "!")
+            shapes = [("x", lambda: [var("x")])] if unary else [
+                ("x, y", lambda: [var("x"), var("y")]), ("x, 0", lambda: [var("x"), lit("c0", 0)]), ("x, 1", lambda: [var("x"), lit("c1", 1)]), ("0, y", lambda: [lit("c0", 0), var("y")]),
+                ("1, y", lambda: [lit("c1", 1), var("y")]), ("x, x", lambda: (lambda v: [v, v])(var("x"))), ("truth value, 0", lambda: [var("x", 1, ("PURE", "BOOL")), lit("c0", 0)])]
+            for sname, mk in shapes:
+                specs.append((f"{cls} {spelled} ({sname})", cls, lambda mk=mk, m=m, field=field: {field: m, "ops": mk(), "value_type": mk_vt("tr", True, 32)}))
+    for sname, mk in (("c, x, y", lambda: [var("c"), var("x"), var("y")]), ("c, x, x", lambda: (lambda v: [var("c"), v, v])(var("x"))), ("truth value, x, x", lambda: (lambda v: [var("c", 1, ("PURE", "BOOL")), v, v])(var("x"))),
+                      ("c, 1, 1", lambda: [var("c"), lit("c1", 1), lit("c1b", 1)])):
+        specs.append((f"Ternary ({sname})", "Ternary", lambda mk=mk: {"ops": mk(), "value_type": mk_vt("tr", True, 32)}))
+    n = 0
+    for name, cls, fields in specs:
+        box = {}
+
+        def f2(fields=fields):
+            d = fields()
+            box["ops"] = d["ops"]
+            return d
+        try:
+            fi, outs = run_il_exec(idx, cls, f2)
+        except Exception as e:
+            continue  # operand shapes the class does not take (a unary member with two operands): not an instance
+        for o in outs:
+            if o.kind == "raise":
+                continue
+            n += 1
+            text = outcome_text(o)
+            missing = sorted({x.label for x in box["ops"] if isinstance(x, AObj) and x.opaque and f"<{x.label}.il_read()>" not in text})
+            ctx.check(f"{name}: every variable operand is read by the printed term", not missing, "each operand's il_read() is part of the text", f"{text[:70]} - not read: {missing}" if missing else "ok", fn_where(idx, fi),
+                      nontrivial=("0" in name or "1" in name or "x, x" in name))
+    ctx.check("operation templates inspected", n >= 60, ">= 60 (class, member, operand shape) instances", str(n), "rzilcompiler/Transformer/Pures/", nontrivial=False)
+
+
+@rule("R12.14", "C12", "printing an operation consumes every operand that owns an IL variable - also when a literal decides the result or the same node stands in two positions", min_instances=60)
+def r12_14(ctx):
+    every_operand_is_consumed(ctx)
